@@ -354,6 +354,31 @@ def rule_must_verify(ctx):
                        "%s::verify calls %s::verify on it" % (short, inner.split("::")[-1]) if ok else
                        "%s::verify never verifies its %s `%s` of type %s (a certificate/vote inside an accepted message would go unchecked)" % (short, "variant" if a["kind"] == "enum" else "field", fld["name"] if a["kind"] != "enum" else v["name"], inner.split("::")[-1]), f.loc())
     ctx.floor(R, "generated field obligations", nob, 9)
+    # the context a nested verification is bound to is the caller's: every nested verify(..) receives the enclosing
+    # function's own genesis / epoch / schedule parameters - never a value read from the message being verified (a vote
+    # checked against its *own* epoch or genesis verifies in any chain and epoch)
+    nctx = 0
+    for adt_path, f in sorted(verifiers.items()):
+        short = adt_path.split("::")[-1]
+        fam = common.family(ctx, f, ("closure",), include_top=True)
+        for g in fam:
+            Tg = ctx.T(g)
+            for c in Tg.calls():
+                if not (c["q"].endswith("::verify") and c["q"].startswith(mods)):
+                    continue
+                a = Tg.args_of(c)
+                bad = []
+                for x in a[1:]:
+                    r, names = chain(x)
+                    from_self = (r[0] == "param" and r[1] == 1) or (r[0] == "upvar" and r[1] == "self")
+                    is_ctx = (r[0] == "param" and r[1] >= 2 and not [n for n in names if not n.endswith("()")]) or (r[0] == "upvar" and not from_self and not [n for n in names if not n.endswith("()")])
+                    if not is_ctx:
+                        bad.append(show(x)[:60])
+                nctx += 1
+                ctx.ob(R, "%s::verify -> %s context" % (short, c["q"].split("::")[-2] + "::verify"), not bad,
+                       "the nested verification is given the caller's own genesis / epoch / schedule" if not bad else
+                       "%s::verify checks a nested %s against %s instead of the context it was asked to verify under" % (short, c["q"].split("::")[-2], bad), g.loc(c["t"].get("ln")))
+    ctx.floor(R, "nested verification contexts", nctx, 8)
     # each nested verify result is propagated: a failing nested verify must not reach Ok
     for adt_path, f in sorted(verifiers.items()):
         short = adt_path.split("::")[-1]
